@@ -1,8 +1,9 @@
-(* model-only engine `unusedvarspec`: input = tree dump; output = <guard flags>|<unused_spec, sorted>|<unused_spec_ext, sorted>
-   guard flags: five characters 0/1 for [WFtop; G_flat; G_dup; G_order; G_pos]
-   (Proofs/UnusedVarProofs.v guard_flags); the second field lists what the tree-level specification
-   of C15 requires, in the format of engine `unusedvar`; the third what the property
-   read on the source text requires (call names and for-counters are mentions, an indexed member is a member). *)
+(* model-only engine `unusedvarspec`: input = tree dump;
+   output = <top_flat>|<unused_spec, sorted>|<dup_spec, sorted>|<the analyser BEFORE the repair, sorted>
+   top_flat: one character 0/1, Proofs/UnusedVarProofs.v top_flat_b (method nodes are children of the root);
+   the second and third fields list what the tree-level specification of C15 requires (the warnings, the
+   "already declared" errors), in the format of engine `unusedvar`; the fourth what the analyser said before
+   the repair of tools/c15_proposed_fix.diff (UnusedVar.analyze_old), for the regression cases. *)
 open Driver_common
 open UnusedVar
 open UnusedVarProofs
@@ -11,7 +12,6 @@ let run_case (line : string) : string =
   let line = Stdlib.String.trim line in
   if line = "" then "NOTREE" else
   let file = Tree_io.node_of_string line in
-  let flags = Stdlib.String.concat "" (Stdlib.List.map (fun b -> if b then "1" else "0") (guard_flags key_today file)) in
-  let ds = Stdlib.List.map Eng_unusedvar.show_diag (unused_spec file) in
-  let es = Stdlib.List.map Eng_unusedvar.show_diag (unused_spec_ext file) in
-  flags ^ "|" ^ Stdlib.String.concat ";" (Stdlib.List.sort compare ds) ^ "|" ^ Stdlib.String.concat ";" (Stdlib.List.sort compare es)
+  let show l = Stdlib.String.concat ";" (Stdlib.List.sort compare (Stdlib.List.map Eng_unusedvar.show_diag l)) in
+  (if top_flat_b file then "1" else "0") ^ "|" ^ show (unused_spec file) ^ "|" ^ show (dup_spec file)
+  ^ "|" ^ show (analyze_old key_today file)
